@@ -41,6 +41,8 @@ type C11Scenario struct {
 	Msgs []C11Msg `json:"msgs"`
 	// Restart (e2e engine): the Subscriber is stopped and started again before the messages arrive
 	Restart bool `json:"restart,omitempty"`
+	// TwoSubs (e2e engine): two Subscriptions of the same Subscriber; each must yield every accepted header
+	TwoSubs bool `json:"two_subs,omitempty"`
 }
 
 var c11Payloads = []string{"valid", "valid", "valid", "bad_validate", "truncated", "bitflip", "empty", "random", "wrong_chain"}
@@ -86,6 +88,7 @@ func genC11E2E(t *rapid.T) C11Scenario {
 	n := rapid.IntRange(1, 6).Draw(t, "nmsgs")
 	var s C11Scenario
 	s.Restart = rapid.IntRange(0, 3).Draw(t, "restart") == 0
+	s.TwoSubs = rapid.Bool().Draw(t, "twosubs")
 	for i := 0; i < n; i++ {
 		m := genC11Msg(t, false)
 		if (m.Payload == "valid" || m.Payload == "bad_validate" || m.Payload == "wrong_chain") && rapid.IntRange(0, 3).Draw(t, "local") == 0 {
@@ -416,6 +419,16 @@ func runC11E2E(t *testing.T, s C11Scenario) (res Result) {
 			return
 		}
 		defer subscription.Cancel()
+		var subscription2 header.Subscription[*vh.Header]
+		if s.TwoSubs {
+			subscription2, err = sub.Subscribe()
+			if err != nil {
+				res.failf("second Subscribe: %v", err)
+				return
+			}
+			defer subscription2.Cancel()
+			res.label("two_subscriptions")
+		}
 		topicA, err := psA.Join(topicID)
 		if err != nil {
 			res.failf("HARNESS: %v", err)
@@ -440,7 +453,7 @@ func runC11E2E(t *testing.T, s C11Scenario) (res Result) {
 			return
 		}
 		// let subscriptions propagate and the mesh form (heartbeats, virtual time)
-		for i := 0; i < 300; i++ {
+		for i := 0; i < 1200; i++ {
 			if len(topicA.ListPeers()) >= 1 && len(psB.ListPeers(topicID)) >= 1 && len(topicC.ListPeers()) >= 1 {
 				break
 			}
@@ -452,7 +465,8 @@ func runC11E2E(t *testing.T, s C11Scenario) (res Result) {
 		}
 		time.Sleep(3 * time.Second)
 
-		var gotB []*vh.Header
+		var gotB, gotB2 []*vh.Header
+		var sub2Panic any
 		var gotC [][]byte
 		var wg sync.WaitGroup
 		rctx, rcancel := context.WithCancel(ctx)
@@ -469,6 +483,28 @@ func runC11E2E(t *testing.T, s C11Scenario) (res Result) {
 				mu.Unlock()
 			}
 		}()
+		if subscription2 != nil {
+			wg.Add(1)
+			go func() {
+				defer wg.Done()
+				defer func() {
+					if r := recover(); r != nil {
+						mu.Lock()
+						sub2Panic = r
+						mu.Unlock()
+					}
+				}()
+				for {
+					h, err := subscription2.NextHeader(rctx)
+					if err != nil {
+						return
+					}
+					mu.Lock()
+					gotB2 = append(gotB2, h)
+					mu.Unlock()
+				}
+			}()
+		}
 		go func() {
 			defer wg.Done()
 			for {
@@ -551,6 +587,16 @@ func runC11E2E(t *testing.T, s C11Scenario) (res Result) {
 					inB = true
 				}
 			}
+			inB2 := !s.TwoSubs
+			for _, h := range gotB2 {
+				if sn.dec != nil && vh.Equal(h, sn.dec) {
+					inB2 = true
+				}
+			}
+			if sub2Panic != nil {
+				res.failf("the second Subscription's NextHeader panicked: %v", sub2Panic)
+				break
+			}
 			inC := false
 			for _, d := range gotC {
 				if string(d) == string(sn.data) {
@@ -562,6 +608,8 @@ func runC11E2E(t *testing.T, s C11Scenario) (res Result) {
 			case pubsub.ValidationAccept:
 				if !inB {
 					res.failf("%s: valid and verified, but the subscription never yielded its header (rejected=%v %q)", tag, wasRejected, reason)
+				} else if !inB2 {
+					res.failf("%s: valid and verified, the first Subscription yielded its header but the second one of the same Subscriber did not", tag)
 				} else if !inC {
 					res.failf("%s: valid and verified, but it was not relayed to the next peer", tag)
 				} else if !delivered && !sn.m.Local {
@@ -569,7 +617,7 @@ func runC11E2E(t *testing.T, s C11Scenario) (res Result) {
 				}
 			default:
 				nonAccept++
-				if inB {
+				if inB || (s.TwoSubs && inB2) {
 					res.failf("%s: delivered to the subscription although it must be %sed", tag, vrName(sn.want))
 				} else if inC {
 					res.failf("%s: relayed to the next peer although it must be %sed", tag, vrName(sn.want))
